@@ -38,6 +38,7 @@ demo_cmd = meta.get("demo_cmd", "")
 # normalise the demo command: run inside our worktree
 demo_cmd = demo_cmd.replace(f"/tmp/seed-c{NN}", wt)
 demo_cmd = re.sub(r"git apply [^&;]*demo\.diff\s*(&&|;)\s*", "", demo_cmd)
+demo_cmd = re.sub(r"git apply [^&;]*patch\.diff\s*(&&|;)\s*", "", demo_cmd)
 if "lib/controller" in demo_cmd and "-overlay" not in demo_cmd:
     demo_cmd = demo_cmd.replace("go test", "go test -overlay /tmp/pamstub/overlay.json")
 result = {"property": prop, "seed": n, "tier": tier}
